@@ -42,6 +42,8 @@ v('c04r4-length-first', 'C04', 'C04-R4', 'src/options.go', "return str, []criter
 # ---- C05
 v('c05r1-shared-slab', 'C05', 'C05-R1', 'src/matcher.go', "\t\t}(idx, m.slab[idx], chunks)", "\t\t}(idx, m.slab[0], chunks)")
 v('c05r2-overlap', 'C05', 'C05-R2', 'src/algo/algo.go', "\toffset16, C0 := alloc16(offset16, slab, N)", "\toffset16, C0 := alloc16(0, slab, N)")
+v('c05r9-no-boundary-init', 'C05', 'C05-R9', 'src/algo/algo.go', "\t\tHleft[0] = 0\n", "")
+v('c03-no-boundary-init', 'C03', 'C05-R9', 'src/algo/algo.go', "\t\tHleft[0] = 0\n", "")
 # ---- C06
 v('c06r1-no-advance', 'C06', 'C06-R1', 'src/reader.go', "\t\tbuf := slab[:n]\n\t\tslab = slab[n:]\n", "\t\tbuf := slab[:n]\n")
 v('c06r2-no-tail-copy', 'C06', 'C06-R2', 'src/chunklist.go', "\t\tif tail > 0 && cnt > 1 {\n\t\t\tnewChunk := *ret[0]\n\t\t\tret[0] = &newChunk\n\t\t}\n", "")
@@ -145,6 +147,14 @@ v('c15r4-clear-no-redraw', 'C15', 'C15-R4', 'src/terminal.go', "\t\t\t\t\tt.mute
 v('c15r5-cy-no-offset', 'C15', 'C15-R5', 'src/terminal.go', "line = t.printItem(item, line, maxy, itemCount, itemCount == t.cy-t.offset, barRange)", "line = t.printItem(item, line, maxy, itemCount, itemCount == t.cy, barRange)")
 v('c15r5-selected-by-row', 'C15', 'C15-R5', 'src/terminal.go', "\t_, selected := t.selected[item.Index()]\n\tlabel := \"\"", "\t_, selected := t.selected[int32(index)]\n\tlabel := \"\"")
 
+v('c11r10-sgr0-keeps-bg', 'C11', 'C11-R10', 'src/ansi.go', "\t\t\t\tcase 0:\n\t\t\t\t\tstate.fg = -1\n\t\t\t\t\tstate.bg = -1\n", "\t\t\t\tcase 0:\n\t\t\t\t\tstate.fg = -1\n")
+v('c11r10-empty-resets-lbg', 'C11', 'C11-R10', 'src/ansi.go', "\tif count == 0 {\n\t\tstate.fg = -1\n", "\tif count == 0 {\n\t\tstate.lbg = -1\n\t\tstate.fg = -1\n")
+v('c15r6-empty-row-unmarked', 'C15', 'C15-R6', 'src/terminal.go', "\tt.move(line, 0, true)\n\tt.markEmptyLine(line)\n", "\tt.move(line, 0, true)\n")
+v('c15r7-selection-survives-reload', 'C15', 'C15-R7', 'src/terminal.go', "\t\t\t// Reloaded: clear selection\n\t\t\tt.selected = make(map[int32]selectedItem)\n", "\t\t\t// Reloaded\n")
+
+v('c02r5-last-char-lower-only', 'C02', 'C02-R5', 'src/algo/algo.go', "\t\tbu = b - 32\n", "\t\tbu = b\n")
+v('c02r5-skip-lower-only', 'C01', 'C02-R5', 'src/algo/algo.go', "\t\tuidx := bytes.IndexByte(byteArray, b-32)\n\t\tif uidx >= 0 {\n\t\t\tidx = uidx\n\t\t}\n", "")
+
 # ---- benign edits (must stay silent)
 b('rename-previousInput', ['C08', 'C09'], 'src/terminal.go', 'previousInput', 'inputBefore', count=0)
 b('rename-leftover', ['C06'], 'src/reader.go', 'leftover', 'carry', count=0)
@@ -170,6 +180,11 @@ b('render-compare-order', ['C15'], 'src/terminal.go', "\t\tprevLine.current == n
 b('render-printall-order', ['C15'], 'src/terminal.go', "\tt.printList()\n\tt.printPrompt()\n\tt.printInfo()\n", "\tt.printPrompt()\n\tt.printInfo()\n\tt.printList()\n")
 b('render-rename-info', ['C15'], 'src/terminal.go', "\t\t\t\tinfo := false\n", "\t\t\t\tinfo := false || false\n")
 b('render-header-flip', ['C15'], 'src/terminal.go', "\t\t\t\t\t\tif !t.resizeIfNeeded() {\n\t\t\t\t\t\t\tt.printHeader()\n\t\t\t\t\t\t}\n", "\t\t\t\t\t\tif resized := t.resizeIfNeeded(); resized {\n\t\t\t\t\t\t\tbreak\n\t\t\t\t\t\t}\n\t\t\t\t\t\tt.printHeader()\n")
+b('boundary-init-through-root', ['C03', 'C05'], 'src/algo/algo.go', "\t\tHleft[0] = 0\n", "\t\tH[row+f-f0-1] = 0\n")
+
+b('reload-reset-order', ['C15'], 'src/terminal.go', "\t\t\tt.selected = make(map[int32]selectedItem)\n\t\t\tt.clearNumLinesCache()\n", "\t\t\tt.clearNumLinesCache()\n\t\t\tt.selected = make(map[int32]selectedItem)\n")
+
+b('prefilter-upper-first', ['C01', 'C02', 'C03', 'C05'], 'src/algo/algo.go', "\t\tif scope[offset] == b || scope[offset] == bu {", "\t\tif scope[offset] == bu || scope[offset] == b {")
 
 def build(entries, outdir, kind):
     os.makedirs(outdir, exist_ok=True)
